@@ -161,6 +161,11 @@ func (e *vfGateEnv) start(fate string, cancellable bool) (int, string, context.C
 		var xerr error
 		var echoed string
 		ok, dump := vfWithin(8*time.Second, func() {
+			defer func() {
+				if r := recover(); r != nil {
+					xerr = fmt.Errorf("vfpanic: %v", r)
+				}
+			}()
 			var fb frameBuilder = &writeQueryFrame{statement: tok, params: queryParams{consistency: One}}
 			if fate == "buildfail" {
 				fb = vfConnFailBuilder{}
